@@ -272,6 +272,7 @@ def _ob_link_append(ci: int, ii: int) -> bool:
     pre: 0 <= ci < 5 and 0 <= ii < 7
     post: __return__
     """
+    assume(ci == PART)
     E = _fixture()
     cont, good = _pick([(E["grp"].data_arrays, E["da"]), (E["tag"].references, E["da1"]),
                         (E["mt"].references, E["da"]), (E["grp"].tags, E["tag"]),
@@ -288,6 +289,8 @@ def _ob_setters(si: int, vi: int) -> bool:
     pre: 0 <= si < 17 and 0 <= vi < 5
     post: __return__
     """
+    lo, hi = PART
+    assume(lo <= si < hi)
     E = _fixture()
     bad = _pick([None, "", 5, ["x"], ["x", "y"]], vi)
     table = [
@@ -483,11 +486,12 @@ OBLIGATIONS = [
        replay=_mk_replay("_ob_ticks_and_link")),
     Ob("append_data", _ob_append_data, timeout=600, functions=["nixio.data_set.DataSet.append"],
        replay=_mk_replay("_ob_append_data")),
-    Ob("link_list_append", _ob_link_append, timeout=900,
+    Ob("link_list_append", _ob_link_append, timeout=900, partition=[0, 1, 2, 3, 4],
        functions=["nixio.container.LinkContainer.append",
                   "nixio.source_link_container.SourceLinkContainer.append"],
        replay=_mk_replay("_ob_link_append")),
     Ob("attribute_setters", _ob_setters, timeout=900,
+       partition=[(0, 3), (3, 6), (6, 9), (9, 12), (12, 14), (14, 16), (16, 17)],
        functions=["nixio.entity.Entity.type", "nixio.feature.Feature.data",
                   "nixio.multi_tag.MultiTag.positions"],
        replay=_mk_replay("_ob_setters")),
